@@ -13,7 +13,8 @@ def run(ctx):
                 "each insertion equals the key of the lookup (operator, edge operands, numeric operands), the memoised "
                 "value is the returned value, computed tags (from_apply_quant, quantifier->tag, VAL->tag) are injective "
                 "and name-consistent for all const-parameter values, and the tag sets of the algorithms of one crate "
-                "are pairwise disjoint. E-TABLE: the tag travelling through terminal_bin's Binary(op, ..) denotes the "
+                "are pairwise disjoint; the value returned on a hit is the same function of the cached value as on "
+                "the miss path (complement-tag re-application in BCDD restrict). E-TABLE: the tag travelling through terminal_bin's Binary(op, ..) denotes the "
                 "operator being computed (bdd, tdd, mtbdd). E-CACHE.dm: the direct-mapped cache compares all four key "
                 "parts on a hit, hashes all key parts, uses try_lock on the operation path, and pre_gc clears and keeps "
                 "every entry locked until post_gc. E-EVENT: gc/reorder/add_vars* of both managers emit the "
@@ -21,6 +22,8 @@ def run(ctx):
                 "every field.")
     n = ecache.run(ctx, F)
     ctx.floor("E-CACHE", "cache-using algorithm functions", n, 24)
+    n = ecache.check_hit_equals_miss(ctx, F)
+    ctx.floor("E-CACHE.hit", "functions with a hit path and a miss path", n, 24)
     edm.run(ctx, F)
     for kind, fid, op, opn in (
             (tables.BDD, "oxidd_rules_bdd::simple::terminal_bin", "oxidd_rules_bdd::simple::BDDOp", "oxidd_rules_bdd::simple::Operation"),
